@@ -261,6 +261,13 @@ func c12flusher(c *Ctx) {
 	// ---- B: the real flusher with its real timer
 	nB := c.N(60, 1500)
 	ka := []byte{253, 254, 255}
+	type flBatch struct {
+		from, n int
+		want    string
+		empty   bool
+	}
+	var batch []flBatch
+	var batchLines []string
 	for it := 0; it < nB; it++ {
 		// NewFlusherWithKeepAlive is NOT run here: its first timer run is due 3us after time.AfterFunc returns and uses
 		// f.timer, which the constructor stores only after AfterFunc has returned — when the constructing goroutine is
@@ -373,22 +380,8 @@ func c12flusher(c *Ctx) {
 			continue
 		}
 		ml := append([]string{fmt.Sprintf("new 4096 %s", kas)}, ev...)
-		mo, err := Model("flusher", ml)
-		if err != nil {
-			r.Disagree("flusher.driver", err.Error(), nil)
-			return
-		}
-		var mchunks []string
-		for _, o := range mo[1:] {
-			f := strings.Fields(o)
-			if len(f) >= 2 && f[1] != "-" {
-				mchunks = append(mchunks, f[1])
-			}
-		}
-		if got, want := strings.Join(mchunks, ","), flSigs(obs); got != want && !(len(obs) == 0 && got == "") {
-			r.Disagree("K2 Model.Flusher ~ lib.flusher", fmt.Sprintf("model chunks %q, recorded %q", got, want), map[string]interface{}{"events": ml, "recorded": want})
-			continue
-		}
+		batch = append(batch, flBatch{from: len(batchLines), n: len(ml), want: flSigs(obs), empty: len(obs) == 0})
+		batchLines = append(batchLines, ml...)
 		nf := 0
 		for _, e := range ev {
 			if e == "fire" {
@@ -398,5 +391,25 @@ func c12flusher(c *Ctx) {
 		r.Case(fmt.Sprintf("flusher/%v/%d/%d/%s", withKA, len(ws), nf, flSigs(obs)), len(obs) > 1)
 		r.CountN("flusher.timer-runs-placed", nf)
 		r.CountN("flusher.chunks", len(obs))
+	}
+	// one run of the Lean model over all recorded histories: its chunks must be the recorded ones
+	mo, err := Model("flusher", batchLines)
+	if err != nil {
+		r.Disagree("flusher.driver", err.Error(), nil)
+		return
+	}
+	for _, b := range batch {
+		var mchunks []string
+		for _, o := range mo[b.from+1 : b.from+b.n] {
+			f := strings.Fields(o)
+			if len(f) >= 2 && f[1] != "-" {
+				mchunks = append(mchunks, f[1])
+			}
+		}
+		if got := strings.Join(mchunks, ","); got != b.want && !(b.empty && got == "") {
+			r.Disagree("K2 Model.Flusher ~ lib.flusher", fmt.Sprintf("model chunks %q, recorded %q", got, b.want),
+				map[string]interface{}{"events": batchLines[b.from : b.from+b.n], "recorded": b.want})
+			break
+		}
 	}
 }
